@@ -150,6 +150,7 @@ def generate(seed, tier="quick"):
         kinds.append("externals")
         if erng.random() < 0.5:
             approved = erng.choice([["create", "trim"], ["fix", "trim"], list(CATS), ["create", "fix", "trim"]])
+    W.sprinkle_uni(prog, sub(seed, "uni"), 0.12)
     return {"program": prog, "approved": approved, "driver": driver, "fmt": draw_fmt(sub(seed, "fmt")), "kinds": kinds}
 
 
